@@ -285,6 +285,9 @@ class BuiltinMixin:
             return [Ev(st, v)]
         if isinstance(v, BoolV):
             return [Ev(st, IntV(self.as_int(v)))]
+        if isinstance(v, (BytesV, StrV)) and len(args) == 1 and _undec(v.t) is not None:
+            # A-int: int(str(n)) == n for the decimal rendering produced by str()/'%d'
+            return [Ev(st, IntV(_undec(v.t)))]
         if isinstance(v, (BytesV, StrV)) and len(args) == 1:
             # A-int: int(b) raises ValueError iff b is not in \s*[+-]?[0-9]([0-9_]*[0-9])?\s* (approximated:
             # raise/no-raise split by the exact regex for digits without underscores; underscore forms are
@@ -793,6 +796,20 @@ class RangeV(V):
 
     def __init__(self, args):
         self.args = list(args)
+
+
+def _undec(t):
+    """n if t is syntactically the decimal rendering dec(n) built by the engine, else None"""
+    if z3.is_app(t) and t.decl().kind() == z3.Z3_OP_INT_TO_STR:
+        return t.arg(0)
+    if z3.is_app(t) and t.decl().kind() == z3.Z3_OP_ITE:
+        a, b = t.arg(1), t.arg(2)
+        if z3.is_app(a) and a.decl().kind() == z3.Z3_OP_INT_TO_STR:
+            x = a.arg(0)
+            c = t.arg(0)
+            if z3.simplify(c == (x >= 0)).eq(z3.BoolVal(True)) or c.eq(x >= 0):
+                return x
+    return None
 
 
 def _lit_any(v):
